@@ -4,7 +4,7 @@ from vlib import env, core, gen, asserts, printer, gread, kf  # noqa: F401
 ID = "C03"
 BUDGET = {"quick": 2500, "thorough": 25000}
 # G92 X/Y/Z outside episodes belongs to the C03 domain; while KF-G92-XYZ-SIGN is open those ops are not rendered (counted)
-PROFILE = gen.profile(retract="matched", zbias=True, rebase=not kf.is_open("KF-G92-XYZ-SIGN"), rebase_w=1)
+PROFILE = gen.profile(retract="matched", zbias=True, rebase=not kf.is_open("KF-G92-XYZ-SIGN"), rebase_w=1, park=True)
 RULE = ("As C01 but restricted to the C03 quantifier (matched retract cycles; no G28 / G92 XYZ / M206 while an episode is "
         "open; G20/G21 and G90/G91 allowed inside episodes; exits by moving out and by @-disable); entering moves that also "
         "change Z or E are frequent. Non-trivial = a closed episode during which the file position (X, Y or Z) changed "
